@@ -260,8 +260,22 @@ impl<'a> PGen<'a> {
             }
             6 => {
                 // shifts: x on top, count below
-                let c = self.r.below(256) as u128;
-                self.ops.push(pushi(c));
+                // counts inside the word width, and beyond it (256, 257, around 2^32, with the top bit set)
+                let c = if self.r.chance(1, 5) {
+                    match self.r.below(7) {
+                        0 => 256,
+                        1 => 257 + self.r.below(255) as u128,
+                        2 => 512 + self.r.below(1000) as u128,
+                        3 => 1u128 << 32,
+                        4 => (1u128 << 32) + self.r.below(300) as u128,
+                        5 => (1u128 << 127) | self.r.below(300) as u128,
+                        _ => self.r.u128(),
+                    }
+                } else {
+                    self.r.below(256) as u128
+                };
+                let count_op = if self.r.chance(1, 30) { Op::PushI(self.r.arr32()) } else { pushi(c) };
+                self.ops.push(count_op);
                 self.st.push(T::I);
                 self.push_int();
                 self.ops.push(if self.r.chance(1, 2) { Op::Shl } else { Op::Shr });
@@ -648,7 +662,7 @@ fn env_programs(r: &mut Rng) -> Vec<Op> {
 
 pub fn run(p: &Params) -> Report {
     let mut rep = Report::new("C10");
-    rep.rule = "cases = (program, initial heap/transaction/environment): (i) every program of length <= 4 over a 16-instruction alphabet x 3 heaps, enumerated; (ii) type-aware random programs with counted and nested loops (iteration counters kept in the heap), forward jumps in/out of loops, boundary slices/indices/exponents/truncation, mixed-type operands; (iii) random decodable instruction lists; (iv) environment-reading programs over random transactions, coins and headers run through Covenant::execute. Oracle: independent reference interpreter; final result compared through the public API and, through the hooked executor, pc/stack/heap after every instruction; repeated and cross-thread runs must agree. Non-trivial = reference executed >= 3 instructions; distinct by (program, heap). Excluded and counted: shift >= 256, loop bodies running past the end, empty loop bodies, lengths above 2^22".into();
+    rep.rule = "cases = (program, initial heap/transaction/environment): (i) every program of length <= 4 over a 16-instruction alphabet x 3 heaps, enumerated; (ii) type-aware random programs with counted and nested loops (iteration counters kept in the heap), forward jumps in/out of loops, boundary slices/indices/exponents/truncation, mixed-type operands; (iii) random decodable instruction lists; (iv) environment-reading programs over random transactions, coins and headers run through Covenant::execute. Oracle: independent reference interpreter; final result compared through the public API and, through the hooked executor, pc/stack/heap after every instruction; repeated and cross-thread runs must agree. Non-trivial = reference executed >= 3 instructions; distinct by (program, heap). Shift amounts are taken modulo 256 (DESIGN 5.6). Excluded and counted: loop bodies running past the end, empty loop bodies, lengths above 2^22".into();
     let mut r = Rng::new(p.shard_seed() ^ 0xC10);
     let hs = heaps(&mut Rng::new(p.seed));
     // (i) exhaustive
